@@ -224,7 +224,7 @@ class Registry:
     def resolve_global(self, I, name, frame):
         from .calls import BUILTIN_NAMES
         mod = frame.module
-        if I.spec or mod == 'ghost':
+        if I.spec or mod in ('ghost', '__spec__'):
             if name == 'result' or name in SPEC_PRIM_NAMES:
                 return SV('func', BuiltinRef('spec:' + name))
             if name in self.oracles:
@@ -476,6 +476,10 @@ def coerce_arg(I, v, ty, node, what):
                     return v
             return None
         if ty[0] == 'rec':
+            if v.kind == 'mobj':
+                v = freeze_mobj(I, v)
+                if v is None:
+                    return None
             if v.kind == 'rec':
                 declared = [ty[1]] if isinstance(ty[1], str) else list(ty[1])
                 actual = (v.extra or {}).get('classes') or []
@@ -520,6 +524,35 @@ def coerce_arg(I, v, ty, node, what):
         if ty[0] == 'tuple':
             return v if v.kind == 'tuple' else None
     return None
+
+
+def freeze_mobj(I, v):
+    """An object built on this path by running its real constructor (a mutable object whose fields are known), handed
+    to a contract that takes it as an immutable definition record: a fresh record constant of the same class whose
+    schema fields of scalar type (and optional fields that are None) equal the object's CURRENT fields. Fields of other
+    shapes are left unconstrained (fewer facts, never wrong ones); the record denotes the object's state at this call."""
+    from .objects import accessor, isnone_fn
+    m = v.t
+    ci = I.world.find_class(m.cls)
+    if ci is None or I.world.builtin_base(ci) is not None:
+        return None
+    r = z3.Const(I.path.fresh_name('frozen_' + m.cls), TY.Obj)
+    I.path.assume(TY.cls_of(r) == TY.class_id(m.cls))
+    for attr in list(m.fields):
+        decl = I.registry.field_decl(m.cls, attr)
+        if decl is None:
+            continue
+        dcls, fty = decl
+        fv = I.read_field(m, attr)
+        if isinstance(fty, tuple) and fty[0] == 'opt':
+            if fv.kind == 'none':
+                I.path.assume(isnone_fn(dcls, attr)(r))
+                continue
+            I.path.assume(z3.Not(isnone_fn(dcls, attr)(r)))
+            fty = fty[1]
+        if fty in ('int', 'str', 'bool', 'real') and fv.kind == fty:
+            I.path.assume(accessor(dcls, attr, TY.smt_sort(fty))(r) == fv.t)
+    return SV('rec', r, cls=m.cls, extra={'classes': [m.cls]})
 
 
 def bind_call_args(I, fn_node, args, kwargs, def_frame, node, skip_self=False):
@@ -632,6 +665,11 @@ def apply_contract(I, con, args, kwargs, node, clo=None, constructing=None, resu
             cv = capture_term(I, callee, cname, cty, func_sv)
         if cv is None:
             raise StaleContract(f"{callee}: captured variable {cname} not found")
+        if clo is not None:
+            cv2 = coerce_arg(I, cv, cty, node, cname)
+            if cv2 is None:
+                raise OutOfSubset(f"{callee}: captured variable {cname} of kind {cv.kind} does not fit {cty!r}")
+            cv = cv2
         sf.vars[cname] = cv
     tag = f"{caller}:call:{callee}"
     for i, r in enumerate(requires):
